@@ -2,7 +2,8 @@
 Stages: regenerate Extracted.v from packfile.rs/packer.rs; build + audit the Coq theorems;
 correspondence of the extracted model with the real code on (a) the header codec, (b)
 PackHeader::from_file on generated packs (well-formed and damaged, every kind of size hint),
-(c) the BasicPacker state machine; (d) end to end: real backups/prune/copy on the in-memory
+(c) the BasicPacker state machine; (e) the repacker: hooked CopyPackBlobs/BlobLocations coalescing and
+real BlobCopier runs (copy_fast / copy) against the extracted `repack`; (d) end to end: real backups/prune/copy on the in-memory
 backend, every pack parsed by the EXTRACTED from_file and compared with the index files,
 its name with SHA-256, its size with the listing; then index files are deleted,
 repair_index is run and check(read_data) + snapshot contents are compared.
@@ -255,7 +256,9 @@ def run(ctx):
         "checked u32 arithmetic = build with overflow checks (the harness and `cargo test` profile); a release build wraps instead of panicking",
         "ids are 32 bytes; IndexBlob.uncompressed_length is NonZeroU32 (never Some 0)",
         "SHA-256 naming of packs and the writer thread (Actor) are observed end to end, not modelled",
-        "delete-marks (packs_to_delete) and pack times are not recoverable from packs and are outside rebuild_index_equals_index"]
+        "delete-marks (packs_to_delete) and pack times are not recoverable from packs and are outside rebuild_index_equals_index",
+        "written_repo_index_rebuildable assumes that the hash (SHA-256) does not collide on the written pack files",
+        "the repacker theorems hold for every order of the blob list; sort_unstable and the parallel iteration over chunks are exercised by the correspondence only"]
     try:
         model = vlib.build_model("C08")
     except RuntimeError as e:
